@@ -454,6 +454,14 @@ pub fn exec_op(w: &mut World<'_>, cfg: &HistCfg, op: &Value) -> bool {
             r
         }
         "end_batch" => { w.batch = false; w.mem().end_batch().is_ok() }
+        "commit_skip_indexes" => match w.mem().commit_skip_indexes() {
+            Ok(()) => { w.rep.count("commit_skip_indexes"); true }
+            Err(e) => { w.violation(&format!("C40:commit-skip-indexes-failed:{}", err_kind(&e)), e.to_string()); false }
+        },
+        "finalize_indexes" => match w.mem().finalize_indexes() {
+            Ok(()) => { w.rep.count("finalize_indexes"); true }
+            Err(e) => { w.violation(&format!("C40:finalize-indexes-failed:{}", err_kind(&e)), e.to_string()); false }
+        },
         "check" => w.check_all("explicit check", true),
         other => { w.rep.inconclusive(json!({"reason": format!("unknown op {other}")})); false }
     };
@@ -507,14 +515,15 @@ pub fn run_history(rep: &mut Report, dir: &std::path::Path, rng: Rng, cfg: &Hist
 }
 
 /// Replay a recorded history (list of JSON operations) through the same executor.
-pub fn replay_history(rep: &mut Report, dir: &std::path::Path, ops: &[Value], cfg: &HistCfg) {
+pub fn replay_history(rep: &mut Report, dir: &std::path::Path, ops: &[Value], cfg: &HistCfg, after: &dyn Fn(&mut World<'_>, &str) -> bool) {
     let mut w = World::new(dir, "mem.mv2", Rng::new(0), rep);
     for op in ops {
-        let name = op.get("op").and_then(Value::as_str).unwrap_or("");
-        if name.starts_with("final") || op.get("result").is_some() || op.get("class").is_some() && op.get("op").is_none() { continue; }
+        let name = op.get("op").and_then(Value::as_str).unwrap_or("").to_string();
+        if name.starts_with("final") || name.is_empty() { continue; }
         w.rep.eval();
         if !exec_op(&mut w, cfg, op) { break; }
         if w.mem.is_some() && !w.check_all("replay check", cfg.on("c07")) { break; }
+        if w.mem.is_some() && !after(&mut w, &name) { break; }
     }
     finish_history(&mut w);
     w.mem = None;
